@@ -16,7 +16,7 @@ ASSUMPTIONS = ["templates contain no braces other than the documented placeholde
                "this is arguably lossy - candidate F10, outside the generator)",
                "hg is FakeRepo only"]
 COMPONENTS = {"bumpver cli update, vcs.VCSAPI": "real", "git/hg": "FakeRepo at the argv seam (ARGV); real git 2.39 (ARGVREAL)"}
-CAMPAIGNS = [Argv("C12", quick=6000, thorough=300000), Argv("C12", quick=200, thorough=6000, real=True)]
+CAMPAIGNS = [Argv("C12", quick=10000, thorough=300000), Argv("C12", quick=200, thorough=6000, real=True)]
 
 
 def sanity_gate(tier, total):
